@@ -15,6 +15,8 @@ import ast
 
 from ..cfg import build_cfg
 from ..loader import AnalysisError, Program, calls_in, norm, walk_no_nested
+from ..dataflow import Inliner
+from ..normalize import flat
 from ..report import Ledger
 from ..sym import DIFFERENT, EQUAL, Translator, Unsupported, Vocabulary, same, sp
 
@@ -58,6 +60,7 @@ def run(prog: Program, L: Ledger) -> None:
     tp = fb.methods.get("calculate_trial_probability")
     if not (step and cg and gz and tp):
         raise AnalysisError("ForceBias anchors missing")
+    step, cg, gz, tp = (flat(prog, f_, fb) for f_ in (step, cg, gz, tp))
 
     # ------------------------------------------------------------------ B: zeta draws
     rets = [s for s in gz.body() if isinstance(s, ast.Return)]
@@ -205,17 +208,31 @@ def run(prog: Program, L: Ledger) -> None:
         vp.bind("np.sign(self.zeta)", sp.Integer(sgn))
         divide = {}
 
+        tp_inl = Inliner(tp.node)
+
         def hook(tr, node, _d=divide):
             if isinstance(node, ast.Call) and norm(node.func) == "np.divide":
                 _d["call"] = node
-                return tr.tr(node.args[0]) / tr.tr(node.args[1])
+                q = tr.tr(node.args[0]) / tr.tr(node.args[1])
+                for k in node.keywords:
+                    if k.arg == "out" and isinstance(k.value, ast.Name):
+                        tr.env[k.value.id] = q  # in-place form: the output array holds the quotient where the mask is true
+                return q
             if isinstance(node, ast.Call) and norm(node.func) == "np.sign" and norm(node.args[0]) == "self.zeta":
                 return sp.Integer(sgn)
             return None
 
         tt.hooks.append(hook)
         try:
-            r = tt.run_block(tp.body())
+            body_tp = []
+            for st_ in tp.body():
+                if isinstance(st_, ast.Expr) and isinstance(st_.value, ast.Call) and norm(st_.value.func) == "np.divide":
+                    tt.tr(st_.value)  # statement form np.divide(..., out=x, where=m)
+                    continue
+                r_ = tt.run_block([st_])
+                if r_ is not None:
+                    break
+            r = r_
         except Unsupported as exc:
             raise AnalysisError(f"calculate_trial_probability: {exc}") from exc
         if r is None:
@@ -234,7 +251,7 @@ def run(prog: Program, L: Ledger) -> None:
                 L.violation("ρ", "ForceBias.calculate_trial_probability:zero-denominator", tp.where, "division by the denominator is not guarded for zero force (γ = 0 ⇒ denominator 0)",
                             "an atom with exactly zero force: 0/0 = NaN, never accepted, the step never terminates", "divide")
             else:
-                kws = {k.arg: k.value for k in dc.keywords}
+                kws = {k.arg: tp_inl.inline(k.value) for k in dc.keywords}
                 okw = "where" in kws and norm(kws["where"]) in ("self.denominator != 0", "self.denominator != 0.0")
                 oko = "out" in kws and isinstance(kws["out"], ast.Call) and norm(kws["out"].func) in ("np.ones_like", "np.ones")
                 L.check(okw and oko, "ρ", "ForceBias.calculate_trial_probability:zero-denominator", tp.where,
@@ -247,8 +264,10 @@ def run(prog: Program, L: Ledger) -> None:
     if len(loops) != 1:
         raise AnalysisError(f"ForceBias.step: expected one rejection loop, found {len(loops)}")
     lp = loops[0]
-    L.check(norm(lp.ast) in ("not np.all(converged)", "not converged.all()", "not np.all(converged) "), "A", "ForceBias.step:loop-exit", f"{step.module.relpath}:{lp.lineno}",
-            f"rejection loop condition is `{norm(lp.ast)}`, not `not np.all(converged)`", "the step ends with unaccepted components / never ends", norm(lp.ast))
+    m_ = __import__("re").match(r"^not (?:np\.all\((\w+)\)|(\w+)\.all\(\))$", norm(lp.ast))
+    accv = (m_.group(1) or m_.group(2)) if m_ else None
+    L.check(accv is not None, "A", "ForceBias.step:loop-exit", f"{step.module.relpath}:{lp.lineno}",
+            f"rejection loop condition is `{norm(lp.ast)}`, not `not np.all(<accepted>)`", "the step ends with unaccepted components / never ends", norm(lp.ast))
     npaths = 0
     for path in cfg.paths(max_back=2, include_exc=False):
         npaths += 1
@@ -261,21 +280,38 @@ def run(prog: Program, L: Ledger) -> None:
             break
     else:
         L.ok("A", "ForceBias.step:single-advance", step.where, f"{npaths} paths")
+    if accv is None:
+        return
     # loop body: masked re-draws only; acceptance P > u
-    wl = [s for s in step.body() if isinstance(s, ast.While)]
+    wl = [s_ for s_ in walk_no_nested(step.node) if isinstance(s_, ast.While)]
     body = wl[0].body
-    conv_defs = [s for s in walk_no_nested(step.node) if isinstance(s, ast.Assign) and norm(s.targets[0]) == "converged"]
-    for s in conv_defs:
-        L.check(norm(s.value) in ("self.calculate_trial_probability() > probability_random", "probability_random < self.calculate_trial_probability()"), "A", "ForceBias.step:acceptance", f"{step.module.relpath}:{s.lineno}",
-                f"acceptance test is `{norm(s.value)}`, not `P_trial > u`", "components are accepted with probability 1 − ρ", norm(s.value))
+    sinl = Inliner(step.node)
+    conv_defs = [s_ for s_ in walk_no_nested(step.node) if isinstance(s_, ast.Assign) and norm(s_.targets[0]) == accv]
+    uvar = None
+    for s_ in conv_defs:
+        v = s_.value
+        okacc = False
+        if isinstance(v, ast.Compare) and len(v.ops) == 1:
+            l_, r_ = norm(v.left), norm(v.comparators[0])
+            if isinstance(v.ops[0], ast.Gt) and l_ == "self.calculate_trial_probability()" and isinstance(v.comparators[0], ast.Name):
+                okacc, uvar = True, r_
+            if isinstance(v.ops[0], ast.Lt) and r_ == "self.calculate_trial_probability()" and isinstance(v.left, ast.Name):
+                okacc, uvar = True, l_
+        L.check(okacc, "A", "ForceBias.step:acceptance", f"{step.module.relpath}:{s_.lineno}",
+                f"acceptance test is `{norm(s_.value)}`, not `P_trial > u`", "components are accepted with probability 1 − ρ", norm(s_.value))
     L.floor("acceptance tests in step()", len(conv_defs), 2)
-    for s in body:
-        if isinstance(s, ast.Assign):
-            tg0 = s.targets[0]
-            if isinstance(tg0, ast.Subscript) and norm(tg0.value) in ("self.zeta", "probability_random"):
-                L.check(norm(tg0.slice) == "~converged", "A", f"ForceBias.step:redraw[{norm(tg0.value)}]", f"{step.module.relpath}:{s.lineno}",
-                        f"re-draw writes `{norm(tg0)}`: only not-yet-accepted entries may be re-drawn", "already accepted components are re-drawn: the sampled density changes", norm(s))
-            elif norm(tg0) in ("self.zeta", "probability_random"):
-                L.violation("A", f"ForceBias.step:redraw[{norm(tg0)}]", f"{step.module.relpath}:{s.lineno}", f"`{norm(s)}` re-draws all entries inside the rejection loop", "accepted components are re-drawn", norm(s))
+    # names for the negated mask inside the loop
+    masks = {f"~{accv}"}
+    for s_ in body:
+        if isinstance(s_, ast.Assign) and isinstance(s_.targets[0], ast.Name) and norm(s_.value) == f"~{accv}":
+            masks.add(s_.targets[0].id)
+    for s_ in body:
+        if isinstance(s_, ast.Assign):
+            tg0 = s_.targets[0]
+            if isinstance(tg0, ast.Subscript) and norm(tg0.value) in ("self.zeta", uvar or "?"):
+                L.check(norm(tg0.slice) in masks, "A", f"ForceBias.step:redraw[{'zeta' if norm(tg0.value) == 'self.zeta' else 'uniform'}]", f"{step.module.relpath}:{s_.lineno}",
+                        f"re-draw writes `{norm(tg0)}`: only not-yet-accepted entries may be re-drawn", "already accepted components are re-drawn: the sampled density changes", norm(s_))
+            elif norm(tg0) in ("self.zeta", uvar or "?"):
+                L.violation("A", f"ForceBias.step:redraw[{'zeta' if norm(tg0) == 'self.zeta' else 'uniform'}]", f"{step.module.relpath}:{s_.lineno}", f"`{norm(s_)}` re-draws all entries inside the rejection loop", "accepted components are re-drawn", norm(s_))
     ur = [c for c in calls_in(step.node) if norm(c.func) == "self._rng.random"]
     L.check(len(ur) == 2, "A", "ForceBias.step:uniforms", step.where, f"{len(ur)} uniform draws for the acceptance test (expected the initial one and the masked re-draw)", "", "uniforms")
